@@ -1128,11 +1128,13 @@ def union_check(sel, form, world, label):
 def run_unions(prog, instances, rec):
     """the unions of the program (prog['unions']), each on further builds of the program that nothing has de-duplicated yet"""
     fails, cur, done = [], None, []
+    rewired = False               # + / += also merge by payload and rewire the nodes they are given in place: the next union starts from a build of its own
     world = World(instances)      # the callables of every build made here: de-duplication may leave a node of an earlier build in a later graph
     rec.paused = True
     try:
         for u in prog.get("unions", []):
-            if cur is None or u.get("fresh"):
+            if cur is None or u.get("fresh") or rewired or u["form"] in ("plus", "iadd"):
+                rewired = u["form"] in ("plus", "iadd")
                 cur = run_build(prog, instances, light=True)
                 world.by_id.update(cur["world"].by_id)
             acts = cur["actions"]
